@@ -1,11 +1,13 @@
 #!/bin/bash
-# usage: try_seeded.sh <patch.diff> <PID> [<PID>...]   — apply to /repo, run checks, undo
+# usage: try_seeded.sh <patch.diff> <PID> [<PID>...]
+# Applies the patch to a COPY of /repo's sources (so that concurrent work on /repo is not disturbed) and runs the
+# checks against the copy via SOSV_REPO.  (The registered checks themselves always read /repo; witness searches
+# are linked against /repo and therefore see the unpatched code in this mode.)
 patch=$1; shift
-cd /repo || exit 2
-git apply --check "$patch" || { echo "PATCH DOES NOT APPLY: $patch"; exit 2; }
-git apply "$patch"
+C=/tmp/seedrepo.$$
+mkdir -p $C && rsync -a --exclude target --exclude .git /repo/ $C/ || exit 2
+( cd $C && patch -p1 -s < "$patch" ) || { echo "PATCH DOES NOT APPLY: $patch"; rm -rf $C; exit 2; }
 for p in "$@"; do
-  (cd /verif && ./check $p 2>&1 | grep -v "^KNOWN-FINDING" | cut -c1-400)
+  (cd /verif && SOSV_REPO=$C ./check $p 2>&1 | grep -v "^KNOWN-FINDING" | cut -c1-400)
 done
-git -C /repo checkout -- . 
-git -C /repo status --short | head -3
+rm -rf $C
